@@ -565,6 +565,129 @@ func (g *gen) forCounted(inf bool) []Stmt {
 	return []Stmt{decl, loop}
 }
 
+// ---------------------------------------------------------------- control-flow templates
+//
+// ctlLoop builds a loop whose body is dominated by if / else-if / else chains with break,
+// continue and early return in every position (if, else-if and final else blocks, nested
+// chains, nested loops) and whose effect is observable: an accumulator receives a distinct
+// increment on every path, before and after the chain. The branch conditions test the loop
+// counter modulo a small constant, so that successive iterations take different branches.
+// The free-form statement generator reaches these shapes only rarely (a terminator in the
+// final else of a chain inside a loop, followed by live statements).
+type ctlGen struct {
+	acc  string
+	t    Ty
+	next int
+}
+
+var ctlIncs = []int64{1, 3, 7, 20, 50, 100, 300, 700, 2000, 5000}
+
+func (g *gen) ctlLit(t Ty, v int64) *Expr {
+	switch t {
+	case F32:
+		return litF32(float32(v))
+	case F64:
+		return litF64(float64(v))
+	}
+	return litInt(t, v)
+}
+
+func (g *gen) ctlUpd(c *ctlGen) Stmt {
+	inc := ctlIncs[c.next%len(ctlIncs)]
+	c.next++
+	if g.chance(30, "ctl-compound") {
+		return Stmt{K: SAssign, N: c.acc, T: c.t, Op: "+", E: g.ctlLit(c.t, inc)}
+	}
+	return Stmt{K: SAssign, N: c.acc, T: c.t, E: bin("+", c.t, varRef(c.acc, c.t), g.ctlLit(c.t, inc))}
+}
+
+func (g *gen) ctlBlock(c *ctlGen, k string, kt Ty, depth int) []Stmt {
+	var out []Stmt
+	if g.chance(60, "ctl-upd") {
+		out = append(out, g.ctlUpd(c))
+	}
+	if depth < 2 && g.chance(25, "ctl-nest") {
+		out = append(out, g.ctlChain(c, k, kt, depth+1))
+		if g.chance(50, "ctl-nest-after") {
+			out = append(out, g.ctlUpd(c))
+		}
+	} else if depth < 2 && g.loopDepth < 2 && g.chance(12, "ctl-inner-loop") {
+		out = append(out, g.ctlLoopStmts(c)...)
+		out = append(out, g.ctlUpd(c))
+	}
+	switch g.intn(8, "ctl-term") {
+	case 4, 5:
+		out = append(out, Stmt{K: SContinue})
+	case 6:
+		out = append(out, Stmt{K: SBreak})
+	case 7:
+		if g.chance(40, "ctl-ret") {
+			out = append(out, Stmt{K: SReturn, E: varRef(c.acc, c.t)})
+		}
+	}
+	return out
+}
+
+func (g *gen) ctlChain(c *ctlGen, k string, kt Ty, depth int) Stmt {
+	mod := 2 + g.intn(3, "ctl-mod")
+	cond := func() *Expr {
+		one, zero := litInt(kt, int64(mod)), litInt(kt, int64(g.intn(mod, "ctl-r")))
+		if kt.isFloat() {
+			// counted loops over floats: compare the counter directly
+			return bin([]string{"<", ">", "=="}[g.intn(3, "ctl-fop")], U8, varRef(k, kt), g.ctlLit(kt, int64(g.intn(4, "ctl-fk"))))
+		}
+		return bin("==", U8, bin("%", kt, varRef(k, kt), one), zero)
+	}
+	s := Stmt{K: SIf, E: cond(), Body: g.ctlBlock(c, k, kt, depth)}
+	for i, n := 0, []int{0, 1, 1, 1, 2, 3}[g.intn(6, "ctl-elifs")]; i < n; i++ {
+		s.Elifs = append(s.Elifs, Elif{C: cond(), Body: g.ctlBlock(c, k, kt, depth)})
+	}
+	if g.chance(75, "ctl-else") {
+		s.HasElse = true
+		s.Else = g.ctlBlock(c, k, kt, depth)
+	}
+	return s
+}
+
+// ctlLoopStmts returns the statements of one loop (range, conditional or infinite form).
+func (g *gen) ctlLoopStmts(c *ctlGen) []Stmt {
+	g.loopDepth++
+	defer func() { g.loopDepth-- }()
+	body := func(k string, kt Ty) []Stmt {
+		var b []Stmt
+		if g.chance(40, "ctl-pre") {
+			b = append(b, g.ctlUpd(c))
+		}
+		b = append(b, g.ctlChain(c, k, kt, 0))
+		b = append(b, g.ctlUpd(c))
+		if g.chance(30, "ctl-second-chain") {
+			b = append(b, g.ctlChain(c, k, kt, 0), g.ctlUpd(c))
+		}
+		return b
+	}
+	switch g.intn(4, "ctl-form") {
+	case 0, 1:
+		kt := g.intTy("ctl-kty")
+		k := g.fresh("k")
+		args := []*Expr{litInt(kt, int64(2+g.intn(6, "ctl-n")))}
+		if g.chance(30, "ctl-range2") {
+			args = []*Expr{litInt(kt, int64(g.intn(3, "ctl-lo"))), litInt(kt, int64(3+g.intn(6, "ctl-hi")))}
+		}
+		return []Stmt{{K: SForRange, T: kt, N: k, Args: args, Body: body(k, kt)}}
+	default:
+		kt := g.ty("ctl-cty")
+		cn := g.fresh("c")
+		decl := Stmt{K: SDecl, N: cn, T: kt, Ann: true, E: g.ctlLit(kt, int64(2+g.intn(6, "ctl-cn")))}
+		dec := Stmt{K: SAssign, N: cn, T: kt, E: bin("-", kt, varRef(cn, kt), g.ctlLit(kt, 1))}
+		zero := g.ctlLit(kt, 0)
+		if g.intn(2, "ctl-inf") == 0 {
+			return []Stmt{decl, {K: SForCond, E: bin(">", U8, varRef(cn, kt), zero), Body: append([]Stmt{dec}, body(cn, kt)...)}}
+		}
+		guard := Stmt{K: SIf, E: bin("<=", U8, varRef(cn, kt), zero), Body: []Stmt{{K: SBreak}}}
+		return []Stmt{decl, {K: SForInf, Body: append([]Stmt{guard, dec}, body(cn, kt)...)}}
+	}
+}
+
 func (g *gen) stmt() []Stmt {
 	k := g.intn(100, "sk")
 	if g.budget <= 0 {
@@ -701,6 +824,12 @@ func genScriptN(t *rapid.T, maxStmts int, forceParams int) Script {
 		g.vars = append(g.vars, vinfo{n: p.N, t: p.T})
 	}
 	sc.Ret = g.ty("ret-ty")
+	// control-flow mode: the function returns an accumulator that every path of a loop
+	// full of if-chains with break/continue/return updates
+	ctlMode := g.intn(4, "ctl-mode") == 0
+	if ctlMode {
+		sc.Ret = []Ty{I32, I64, U32, U64, F64, I64}[g.intn(6, "ctl-ret-ty")]
+	}
 	g.ret = sc.Ret
 	g.budget = maxStmts
 	// stateful declarations: top level only (as in every documented example)
@@ -716,8 +845,24 @@ func genScriptN(t *rapid.T, maxStmts int, forceParams int) Script {
 		return Stmt{K: SState, N: n, T: st, E: e, Ann: g.chance(60, "state-ann")}
 	}), 0, 2).Draw(outer, "state-decls")...)
 	g.t = outer
-	sc.Body = append(sc.Body, g.stmtList(0, maxStmts, "body")...)
-	sc.Body = append(sc.Body, Stmt{K: SReturn, E: g.expr(sc.Ret, g.depth("ret-d"))})
+	if ctlMode {
+		c := &ctlGen{acc: g.fresh("acc"), t: sc.Ret}
+		sc.Body = append(sc.Body, Stmt{K: SDecl, N: c.acc, T: c.t, Ann: true, E: g.ctlLit(c.t, int64(g.intn(3, "ctl-init")))})
+		g.vars = append(g.vars, vinfo{n: c.acc, t: c.t})
+		g.budget -= 6
+		sc.Body = append(sc.Body, g.stmtList(0, 2, "ctl-before")...)
+		sc.Body = append(sc.Body, g.ctlLoopStmts(c)...)
+		sc.Body = append(sc.Body, g.stmtList(0, 2, "ctl-after")...)
+		g.cnt["constructed:control-flow-template"]++
+		if g.chance(60, "ctl-ret-plain") {
+			sc.Body = append(sc.Body, Stmt{K: SReturn, E: varRef(c.acc, c.t)})
+		} else {
+			sc.Body = append(sc.Body, Stmt{K: SReturn, E: bin("+", c.t, varRef(c.acc, c.t), g.expr(sc.Ret, g.depth("ret-d")))})
+		}
+	} else {
+		sc.Body = append(sc.Body, g.stmtList(0, maxStmts, "body")...)
+		sc.Body = append(sc.Body, Stmt{K: SReturn, E: g.expr(sc.Ret, g.depth("ret-d"))})
+	}
 	minCalls := 3
 	if np == 0 {
 		minCalls = 1
